@@ -96,7 +96,7 @@ def run(ctx, rep):
     # R10.5 both conversions are total: panic-site inventory
     import panics
     panics.check_paths(ctx, rep, "R10.5", ["insim_core::string::codepages::to_lossy_bytes", "insim_core::string::codepages::to_lossy_string"], label="codepage conversion")
-    rep.floor("R10.5", 8)
+    rep.floor("R10.5", 5)
 
 
 def marker_discipline(ctx, rep):
